@@ -85,6 +85,7 @@ mut("C20", "sweep_error_state_trailer_next", "C20.R4", [(S, "                   
 mut("C06", "sweep_trailer_no_advance", "C06.R6.pieces", [(S, "                this.state += 1;\n                this.remaining -= crate::as_u64(PART_TRAILER.len());", "                this.remaining -= crate::as_u64(PART_TRAILER.len());")], also="C01 C20")
 mut("C06", "sweep_part_header_no_advance", "C06.R6.pieces", [(S, "                let v = std::mem::take(&mut this.part_headers[i]);\n                this.state += 1;", "                let v = std::mem::take(&mut this.part_headers[i]);")], also="C01")
 mut("C20", "sweep_error_keeps_owed_bytes", "C20.R4", [(S, "                        this.cur = None;\n                        this.remaining = 0;", "                        this.cur = None;")], also="C13")
+mut("C06", "sweep_part_entity_headers_with_if_range", "C06.R4", [(S, "                    if etag::strong_eq(if_range, some_etag.as_bytes()) {\n                        false", "                    if etag::strong_eq(if_range, some_etag.as_bytes()) {\n                        true")])
 # ---------------- C07
 mut("C07", "multipart_part_without_exactlen_budget", "C07.R2", [(S, "this.cur = Some(crate::body::ExactLenStream::new(\n                    r.end - r.start,", "this.cur = Some(crate::body::ExactLenStream::new(\n                    r.end - r.start + 0 * r.start + 1,")], also="C01")
 mut("C07", "inner_error_swallowed", "C07.R1", [(B_, "Poll::Ready(Some(Err(e))) => Poll::Ready(Some(Err(e))),", "Poll::Ready(Some(Err(_e))) => Poll::Ready(None),")], also="C01")
